@@ -89,4 +89,26 @@ unsigned long long wv_slen;       /* length of the seed string (what strlen retu
 unsigned wv_gi;                   /* observed index into the IV table */
 /* --- verify(): the magic-number verdict as a ghost (so that contracts up the call chain need not repeat eight file bytes) */
 _Bool wv_magic_ok;
+/* --- thread-modular pipeline proofs (P-E): the control block and chunk buffer under consideration (chosen by the harness, never
+   assigned), and the mutable log of hand-over events */
+struct bufferctrl;
+struct iobuffer;
+struct bufferctrl *wv_c;
+struct iobuffer *wv_b;
+struct wv_pl_t
+{
+  unsigned long long entries;       /* blocks handed to the worker by require_buffer_entry */
+  unsigned long long runs;          /* blocks given to a stream object by the worker */
+  const unsigned char *last_entry;  /* the most recent block handed out */
+  const unsigned char *last_run;    /* the most recent block transformed */
+  const void *last_mode;            /* the stream object that transformed it */
+  _Bool order_ok;                   /* every transformed block was the block most recently handed out, by the worker's own stream */
+  _Bool notified_ready, notified_update;   /* a notify_all on the respective condition variable happened since the flag was cleared */
+} wv_pl;
+#define WV_ST_OK(s) ((s) == EMPTY || (s) == UPDATING || (s) == READY || (s) == INV)
+#define WV_IO_OWNED(s) ((s) == EMPTY || (s) == UPDATING)
+#define WV_B_SAME_AS_ENTRY (wv_b->now == __CPROVER_loop_entry(wv_b->now) && wv_b->total == __CPROVER_loop_entry(wv_b->total) && \
+  wv_b->tail == __CPROVER_loop_entry(wv_b->tail) && wv_b->isfinal == __CPROVER_loop_entry(wv_b->isfinal))
+#define WV_WORKER_INV ((wv_c->state == READY || wv_c->state == INV) && WV_B_OK(wv_b) && (wv_c->state == INV ==> wv_b->now == wv_b->total) && !wv_c->lock.held)
+#define WV_B_OK(b) ((b)->now <= (b)->total && (b)->total <= iobuffer__BUF_SZ && (b)->tail < 16)
 #endif
